@@ -211,7 +211,11 @@ func (r *Run) scribble(c *Call) []*Violation {
 			break
 		}
 	}
-	if r.PkgSnap != nil {
+	// Package state is compared only across mutations that execute no library
+	// code (raw memory writes): a public mutator may legitimately update internal
+	// caches keyed by the value it is given, a raw write cannot.
+	rawMutation := l.Kind == "bytes" || mode == 0
+	if r.PkgSnap != nil && rawMutation {
 		r.Stats.Inc("oracle/C19/pkgstate")
 		if !bytes.Equal(r.PkgSnap(), pkgPre) {
 			vs = append(vs, r.viol("C19", "mutating-returned-value-changed-package-state", l.Kind,
